@@ -73,40 +73,52 @@ theorem tie_loadBody :
 
 /-! ### Handler.saltAuthToken (lib/controller/federation.go) -/
 
-/-- The content type `saltAuthToken` tests before it looks into the body is the one the body
-loader accepts — the model has a single `formCT`. (This is the tie the misspelt literal
-`application/x-www-form-encoded` breaks: finding F7.) -/
-theorem tie_formCT_same : legacyStrings.getD 1 "" = loadBodyStrings.getD 1 "" := by decide
+/-- The media type `saltAuthToken` looks for is the model's `formCT`, the same literal the body
+loader of sdk/go/auth uses. (The misspelt literal `application/x-www-form-encoded` of finding F7
+breaks exactly this.) -/
+theorem tie_formCT_same : legacyStrings.getD 2 "" = loadBodyStrings.getD 1 "" := by decide
 
-theorem tie_formCT_legacy : (legacyStrings.getD 1 "").toList = formCT := by decide
+theorem tie_formCT_legacy : (legacyStrings.getD 2 "").toList = formCT := by decide
+
+/-- the separators that end the media type are the ones `mediaTypeOf` cuts at -/
+theorem tie_mediaTypeSeparators : (legacyStrings.getD 1 "").toList = [';', ','] := by decide
 
 theorem tie_legacyStrings : legacyStrings =
-    ["Content-Type", "application/x-www-form-urlencoded", "api_token",
-     "saltAuthToken: cluster %s token %s remote %s", "Authorization", "Authorization", "Bearer ",
-     "api_token", "api_token"] ∧
-    (legacyStrings.getD 6 "").toList = sBearer := by decide
+    ["Content-Type", ";,", "application/x-www-form-urlencoded", "api_token", "", "api_token",
+     "saltAuthToken: cluster %s token %s remote %s", "Authorization", "Cookie", "Authorization",
+     "Bearer ", "arvados_api_token", "api_token", "api_token"] ∧
+    (legacyStrings.getD 10 "").toList = sBearer ∧
+    (legacyStrings.getD 3 "").toList = apiTokenKey ∧
+    legacyStrings.getD 11 "" = cookieStrings.getD 0 "" := by decide
 
+/-- branch structure: media type of the body (no "no token found yet" guard, no method test),
+parse error ⇒ return, first non-empty api_token, no token ⇒ forward as is, local lookup for
+legacy/format errors, header rebuild without Authorization and Cookie, cookies other than
+arvados_api_token re-added, query string stripped -/
 theorem tie_legacyConds : legacyConds =
-    ["if len(creds.Tokens) == 0 && updatedReq.Header.Get(\"Content-Type\") == \"application/x-www-form-urlencoded\"",
+    ["if i >= 0",
+     "if strings.ToLower(strings.TrimSpace(ct)) == \"application/x-www-form-urlencoded\" && updatedReq.Body != nil",
      "if err != nil",
-     "if updatedReq.PostForm != nil",
+     "if err != nil",
+     "if t != \"\"",
      "if len(creds.Tokens) == 0",
      "if err == auth.ErrObsoleteToken || err == auth.ErrTokenFormat",
      "if err != nil",
      "if !ok || strings.HasPrefix(currentUser.UUID, remote)",
      "if err != nil",
      "if err != nil",
-     "if k != \"Authorization\"",
+     "if k != \"Authorization\" && k != \"Cookie\"",
+     "if cookie.Name != \"arvados_api_token\"",
      "if err != nil",
      "if ok"] := by decide
 
-/-- discovery, body branch (delete api_token, re-encode), salt, local lookup, second salt, header
-rebuild, query-string stripping — in this order -/
+/-- discovery, media type, body (first api_token, delete, re-encode), salt, local lookup, second
+salt, header rebuild, cookies, query-string stripping — in this order -/
 theorem tie_legacyCalls : legacyCalls =
-    ["creds.LoadTokensFromHTTPRequest", "creds.LoadTokensFromHTTPRequestBody",
-     "updatedReq.PostForm.Del", "updatedReq.PostForm.Encode", "auth.SaltToken",
-     "h.validateAPItoken", "strings.HasPrefix", "auth.SaltToken", "updatedReq.Header.Set",
-     "url.ParseQuery"] := by decide
+    ["creds.LoadTokensFromHTTPRequest", "strings.IndexAny", "strings.ToLower", "strings.TrimSpace",
+     "url.ParseQuery", "form.Get", "form.Del", "form.Encode", "auth.SaltToken", "h.validateAPItoken",
+     "strings.HasPrefix", "auth.SaltToken", "updatedReq.Header.Set", "req.Cookies",
+     "updatedReq.AddCookie", "url.ParseQuery"] := by decide
 
 /-- `validateAPItoken`: v2 prefix split, no row ⇒ not ok, uuid mismatch ⇒ not ok (`resolveLocal`) -/
 theorem tie_validateConds : validateConds =
